@@ -21,7 +21,8 @@ func init() {
 			"R7 a file that fails is skipped without changing the result for any other file: nothing created outside the per-file loop (buffers, maps, pointers) is written or handed to a mutating call inside it, apart from the position table, the error accumulators, the logger and the runner. " +
 			"NOT decided: the operating system's rename atomicity and crash behaviour (no fsync is required by the rule); whether messages are well worded." +
 			" R7 also: runner state is write-only while files are processed; R5 also: no deferred overwrite of Run's error." +
-			" R11 an unprocessable patch is reported (connectDots covers every '+' elision).",
+			" R11 an unprocessable patch is reported (connectDots covers every '+' elision)." +
+			" R5 also: the patch runner is never copied by value (no value receiver, no struct load).",
 		Trusted:     commonTrusted,
 		Assumptions: append([]string{"os.Rename within one directory replaces the destination atomically (POSIX)", "errors returned by package os for a path (*PathError, *LinkError) name that path"}, commonAssumptions...),
 	})
@@ -978,7 +979,7 @@ func runnerNeverCopied(r *an.Run, rule string) {
 		}
 	}
 	r.Count("uses of the patch runner", n)
-	r.Min("uses of the patch runner", 2)
+	r.Min("uses of the patch runner", 1)
 	if len(r.Failing()) == 0 {
 		r.Pass("runner-never-copied", 0, "%d values of the patch runner type in package main: all are pointers to the one runner (no value receiver, no struct copy)", n)
 	}
